@@ -37,7 +37,34 @@ def run(ctx):
         run_cfg(ctx, ctx.prog(cfg), cfg)
 
 
+ARGS_FN = "encode::pattern::parser::Parser::<'a>::args"
+ARG_FN = "encode::pattern::parser::Parser::<'a>::arg"
+
+
+def rule_args_kept(ctx, p, cfg, rid="P7"):
+    """Wrong argument counts can only be surfaced if the arguments are counted as written: in Parser::args every group that
+    arg() parsed is pushed onto the list - whatever it contains, an empty `()` included - before the next group is looked
+    for or the list is returned."""
+    with ctx.rule(rid, "every argument group written is counted", cfg) as r:
+        f = p.fn_loops(ARGS_FN)
+        cs = [c for c in f.calls() if c.callee == ARG_FN]
+        if not cs:
+            raise AnchorMissing("Parser::args does not call Parser::arg")
+        pushes = {c.block for c in f.calls() if (c.callee or "").rsplit("::", 1)[-1] in ("push", "extend", "push_back") and c.args and
+                  any(x[0] == "call" and x[1] == ARG_FN for x in walk(c.arg(1)))}
+        r.require(bool(pushes), "argument-pushed", fn=f, detail="the parsed group is pushed onto the argument list")
+        okrets = {b for b, e in q.ret_assignments(f) if q.classify_ret(e) != "err" and not q.is_from_residual(e)}
+        for i, c in enumerate(cs):
+            nxt = c.t.get("target")
+            stops = okrets | {x.block for x in cs}
+            hit = q.const_skipping_paths(f, nxt, pushes, stops) if nxt is not None else set()
+            # the failure edge of `arg()?` returns the error: not a stop
+            r.require(not hit, "group-kept-on-every-path#%d" % i, fn=f, site=c.at, detail="from arg()'s return no path reaches the next group or an Ok return without the push",
+                      fail_detail="a group parsed by arg() can be dropped: bb%s is reached without pushing it (an empty `()` after a formatter that takes no arguments then goes unreported)" % sorted(hit))
+
+
 def run_cfg(ctx, p, cfg):
+    rule_args_kept(ctx, p, cfg, "P7")
     satisfied = set()
     with ctx.rule("P2", "format strings are validated before use", cfg) as r:
         f = p.fn(FROM_PIECE)
